@@ -552,6 +552,12 @@ FIXED += [
      json.loads('{"result": "v3", "steps": [{"out": "v0", "table": "t0", "verb": "source"}, {"in": "v0", "items": [["k", ["lit", null]]], "out": "v1", "verb": "mutate"}, {"in": "v0", "items": [["k", ["lit", "r"]]], "out": "v2", "verb": "mutate"}, {"distinct": false, "in": "v1", "out": "v3", "right": "v2", "verb": "union"}], "tables": [{"cols": [["id", "int64"], ["a", "int64"]], "name": "t0", "rows": [[1, 5], [2, null]]}]}')),
 ]
 
+FIXED += [
+    ('F78-polars-shift-float-fill-lazy-schema', 'C07', 'Polars shift of an integer expression with a float fill value is cast to float',
+     'Polars: the union of an integer column with shift(<int expr>, n, <float fill>) raised SchemaError: Polars computes the shift as Float64 but the lazy schema reports the integer type, so the union skipped the cast to the common type (thorough run 6)',
+     json.loads('{"mode": "directed", "result": "v13", "steps": [{"out": "v0", "table": "t0", "verb": "source"}, {"in": "v0", "items": [["p", ["fn", "shift", [["fn", "hmax", [["lit", 0], ["col", {"n": "c", "v": "v0"}]], {}], ["lit", -1], ["lit", 10.0]], {"arrange": [[["col", {"n": "b", "v": "v0"}], false, "first", 1], [["col", {"c": "id"}], false, null, 0]]}]]], "out": "v1", "verb": "mutate"}, {"cols": [{"c": "id"}, {"c": "b"}, {"c": "c"}], "in": "v1", "out": "v6", "verb": "select"}, {"in": "v1", "items": [["c", ["col", {"c": "p"}]]], "out": "v9", "verb": "mutate"}, {"cols": [{"c": "c"}, {"c": "b"}, {"c": "id"}], "in": "v9", "out": "v10", "verb": "select"}, {"in": "v6", "items": [["b_r", ["lit", 1]]], "out": "v11", "verb": "mutate"}, {"in": "v10", "items": [["b_r", ["lit", 2]]], "out": "v12", "verb": "mutate"}, {"distinct": true, "in": "v11", "out": "v13", "right": "v12", "verb": "union"}], "tables": [{"cols": [["id", "int64"], ["b", "float64"], ["c", "int64"]], "name": "t0", "rows": []}]}')),
+]
+
 
 def main():
     log = subprocess.run(["git", "-C", "/repo", "log", "--format=%h %s"], capture_output=True, text=True).stdout.splitlines()
